@@ -227,7 +227,7 @@ macro_rules! wrapper_harnesses {
                 let r = key.try_sign_with_rng(&mut rng, &msg, ctx);
                 unsafe {
                     if n > 255 {
-                        kani::assert(r.is_err(), "C07: context longer than 255 bytes accepted by try_sign_with_rng");
+                        kani::assert(r.is_err(), "C07/C06/C03: context longer than 255 bytes accepted by try_sign_with_rng");
                         kani::assert(SIGN_CALLS == 0, "C07: signer ran although the context is too long");
                     } else if rng.fail {
                         kani::assert(r.is_err(), "C12: RNG failure not reported by try_sign_with_rng");
@@ -280,7 +280,7 @@ macro_rules! wrapper_harnesses {
                 let r = key.try_hash_sign_with_rng(&mut rng, &msg, ctx, &ph);
                 unsafe {
                     if n > 255 {
-                        kani::assert(r.is_err(), "C07: context longer than 255 bytes accepted by try_hash_sign_with_rng");
+                        kani::assert(r.is_err(), "C07/C06/C03: context longer than 255 bytes accepted by try_hash_sign_with_rng");
                         kani::assert(SIGN_CALLS == 0, "C07: signer ran although the context is too long");
                     } else if rng.fail {
                         kani::assert(r.is_err(), "C12: RNG failure not reported by try_hash_sign_with_rng");
@@ -333,8 +333,8 @@ macro_rules! wrapper_harnesses {
                 let r = if hashed { key.hash_verify(&msg, &sig, ctx, &ph) } else { key.verify(&msg, &sig, ctx) };
                 unsafe {
                     if n > 255 {
-                        kani::assert(!r, "C07: verification accepted a context longer than 255 bytes");
-                        kani::assert(VERIFY_CALLS == 0, "C07: verifier ran although the context is too long");
+                        kani::assert(!r, "C07/C06/C02: verification accepted a context longer than 255 bytes");
+                        kani::assert(VERIFY_CALLS == 0, "C07/C06/C02: verifier ran although the context is too long");
                     } else {
                         kani::assert(VERIFY_CALLS == 1, "wiring: VERIFY_CALLS == 1");
                         kani::assert(r == VERIFY_ANSWER, "C02: wrapper does not return Verify_internal's decision");
